@@ -216,8 +216,20 @@ def _elim(stmts, cont, on_return, top=True):
                                 blk[j] = ast.copy_location(ast.Break(), s)
             out.append(st)
             return out
+        if isinstance(st, ast.Try) and not st.orelse and not st.finalbody and st.body and \
+                isinstance(st.body[-1], ast.Return) and \
+                not any(_has_return(x) for x in st.body[:-1]) and \
+                all(_always_leaves(h.body) and not any(_has_return(x) for x in h.body)
+                    for h in st.handlers):
+            # `try: ...; return E` whose handlers all re-raise: the value is produced inside the
+            # try and nothing after it runs
+            new = ast.Try(body=st.body[:-1] + on_return(st.body[-1]) or [ast.Pass()],
+                          handlers=st.handlers, orelse=[], finalbody=[])
+            out.append(ast.copy_location(new, st))
+            return out
         raise Unsupported('return inside %s' % type(st).__name__)
-    out.extend(cont)
+    if not (out and isinstance(out[-1], (ast.Raise, ast.Return, ast.Continue, ast.Break))):
+        out.extend(cont)
     return out
 
 
@@ -474,6 +486,17 @@ class Inliner:
                             if not blk:
                                 blk.append(ast.copy_location(ast.Pass(), fn))
                             self.dropped.append(hq)
+
+
+def _always_leaves(stmts):
+    if not stmts:
+        return False
+    last = stmts[-1]
+    if isinstance(last, ast.Raise):
+        return True
+    if isinstance(last, ast.If):
+        return bool(last.orelse) and _always_leaves(last.body) and _always_leaves(last.orelse)
+    return False
 
 
 def _always_returns(stmts):
